@@ -278,4 +278,34 @@ def obsOfItem (c : Nat) (obs : List (Nat × Val)) : List Val :=
 def phBefore (srv : Srv) (req : Req) (j : Nat) : Val :=
   lastWrite 0 (loopSteps srv (req.opt == optStop) (req.items.take j) false)
 
+/-! ### the loop around an arbitrary item chain
+
+With batch-item middlewares installed `executeItemWithMiddleware` is no longer `executeItem` + error mapping: a
+middleware may skip, retry, rewrite or replace the item result (C19 models one such chain around one item). The
+loop of `handleRequest` only sees what comes OUT of the chain. `loopG` is that loop around an arbitrary item
+executor `f` (index, placeholder, request item ↦ response item, placeholder): what holds of it holds whatever
+middlewares are installed. -/
+
+structure GItemOut where
+  ri : RItem
+  ph : Val
+  deriving Repr, Inhabited
+
+/-- response items, and the indices of the items handed to the item chain, in order. -/
+def loopG (f : Nat → Val → Item → GItemOut) (stop : Bool) :
+    List Item → Nat → Bool → Val → List RItem × List Nat
+  | [], _, _, _ => ([], [])
+  | it :: rest, i, stopped, ph =>
+    if stopped then
+      let r := loopG f stop rest (i + 1) true ph
+      (canceled it :: r.1, r.2)
+    else
+      let o := f i ph it
+      let r := loopG f stop rest (i + 1) (o.ri.failed && stop) o.ph
+      (o.ri :: r.1, i :: r.2)
+
+/-- the item executor of the middleware-free model. -/
+def plainItem (srv : Srv) : Nat → Val → Item → GItemOut :=
+  fun _ ph it => { ri := (executeItemWithMiddleware srv ph it).ri, ph := (executeItemWithMiddleware srv ph it).ph }
+
 end Kmip.Batch
